@@ -25,7 +25,12 @@ type c15Case struct {
 	Body   string `json:"body"`
 	Query  string `json:"query"`         // raw query string without '?'
 	Ptr    bool   `json:"ptr,omitempty"` // the schema is z.Ptr(z.Struct(...)): "the record may not exist"
+	// Pre: what a middleware did with the request before the handler: "" | parseform (r.ParseForm) | formvalue
+	// (r.FormValue, which also parses a multipart body)
+	Pre string `json:"pre,omitempty"`
 }
+
+const c15Multipart = "--x\r\nContent-Disposition: form-data; name=\"name\"\r\n\r\nM-name\r\n--x\r\nContent-Disposition: form-data; name=\"opt\"\r\n\r\nM-opt\r\n--x\r\nContent-Disposition: form-data; name=\"tags[]\"\r\n\r\nM1\r\n--x--\r\n"
 
 type c15Dest struct {
 	Name string   `json:"name" form:"name" query:"name"`
@@ -111,6 +116,12 @@ func propC15(c c15Case) hh.Verdict {
 	if c.CType != "" {
 		req.Header.Set("Content-Type", c.CType)
 	}
+	switch c.Pre {
+	case "parseform":
+		_ = req.ParseForm()
+	case "formvalue":
+		_ = req.FormValue("csrf_token")
+	}
 	sentinel := c15Dest{Name: "§N", Tags: []string{"§T"}, Opt: "§O", List: []string{"§L"}}
 	dest := sentinel
 	var errs z.ZogIssueMap
@@ -173,6 +184,10 @@ func propC15(c c15Case) hh.Verdict {
 		}
 		for k, l := range qv {
 			vals[k] = append(vals[k], l...)
+		}
+		if perr != nil && c.Pre != "" {
+			// net/http reports a malformed form to the first caller of ParseForm only (here: the middleware)
+			return hh.Verdict{Skip: "malformed-form-already-parsed-by-a-middleware"}
 		}
 		if perr != nil {
 			decodeFail = "invalid_form"
@@ -309,13 +324,14 @@ var c15Bodies = []string{
 	`[1,2]`, `7`, `"str"`, `null`, `true`, `{"name":"J-na`, `{"name":}`, ``, ` `,
 	`name=B-name&tags%5B%5D=B1&tags%5B%5D=B2&opt=B-opt&list=BL1&list=BL2`, `name=B-name&tags%5B%5D=B1`, `name=B-name`, `tags%5B%5D=B1&list=BL`,
 	`name=%zz`, `name=B&x=%`, `name=B;tags%5B%5D=B1`, `name=&tags%5B%5D=`,
+	c15Multipart,
 }
 var c15Queries = []string{"", "name=Q-name&tags%5B%5D=Q1", "name=Q-name&tags%5B%5D=Q1&tags%5B%5D=Q2&opt=Q-opt&list=QL1&list=QL2", "name=Q-name", "name=Q1&name=Q2&tags%5B%5D=Q1",
 	"tags%5B%5D=Q1&list=QL", "name=Q-name&tags=Q-not-bracketed", "name=%zz&tags%5B%5D=Q1", "name=+&tags%5B%5D=Q1", "opt=Q-opt"}
 
 func TestC15(t *testing.T) {
 	h := hh.Start(t, "C15",
-		"exhaustive product: method {GET, HEAD, POST, PUT, PATCH, DELETE, OPTIONS, FOO} x Content-Type (absent, JSON / urlencoded with and without parameters in both documented spellings, other and look-alike media types) x body (valid JSON objects, {}, null-valued fields, non-objects, truncated, empty, valid forms, forms with bad escapes / semicolons / empty values) x query string (absent, single, repeated, []-suffixed, missing [] key, bad escape); every source carries distinct sentinel values and recording coercers report the raw value handed to each field; plus random requests from the same grammar; non-trivial = a body method with a Content-Type, an undecodable body, or a list-valued parameter; every enumerated request is distinct",
+		"exhaustive product: method {GET, HEAD, POST, PUT, PATCH, DELETE, OPTIONS, FOO} x Content-Type (absent, JSON / urlencoded with and without parameters in both documented spellings, other and look-alike media types) x body (valid JSON objects, {}, null-valued fields, non-objects, truncated, empty, valid forms, forms with bad escapes / semicolons / empty values) x query string (absent, single, repeated, []-suffixed, missing [] key, bad escape), also after a middleware called r.ParseForm / r.FormValue (incl. well-formed multipart bodies); every source carries distinct sentinel values and recording coercers report the raw value handed to each field; plus random requests from the same grammar; non-trivial = a body method with a Content-Type, an undecodable body, or a list-valued parameter; every enumerated request is distinct",
 		"expected source from the statement's dispatch table (net/http decides which methods read a form body); undecodable body => exactly one invalid_json / invalid_form issue at $root, no schema callback ran, destination equal to its sentinel pre-fill; {} => every field absent (required fields report required); repeated or []-suffixed => list, single => string, missing => absent",
 		"Content-Type spellings outside <media-type>[; parameter=value] (upper case, space before ';') and JSON followed by trailing data are outside the documented domain (skipped)")
 	defer h.Finish()
@@ -325,6 +341,21 @@ func TestC15(t *testing.T) {
 				for _, b := range c15Bodies {
 					for _, q := range c15Queries {
 						yield(c15Case{Method: m, CType: ct, Body: b, Query: q})
+					}
+				}
+			}
+		}
+	}, propC15)
+	// the same dispatch after a middleware has already looked at the request (r.ParseForm / r.FormValue): the source is
+	// still chosen by method and Content-Type; a multipart body is not one of the three sources
+	hh.Enumerate(h, "dispatch-product-preparsed", func(yield func(c15Case)) {
+		for _, pre := range []string{"parseform", "formvalue"} {
+			for _, m := range c15Methods {
+				for _, ct := range []string{"", "application/json", "application/x-www-form-urlencoded", "multipart/form-data; boundary=x", "text/plain"} {
+					for _, b := range []string{c15Multipart, c15Bodies[0], c15Bodies[13], `{}`, ``, `name=%zz`} {
+						for _, q := range []string{"", "name=Q-name&tags%5B%5D=Q1", "opt=Q-opt&list=QL1&list=QL2"} {
+							yield(c15Case{Method: m, CType: ct, Body: b, Query: q, Pre: pre})
+						}
 					}
 				}
 			}
@@ -345,6 +376,9 @@ func TestC15(t *testing.T) {
 	jfrag := []string{"{", "}", `"name"`, `"tags"`, ":", ",", `"J"`, "[", "]", "null", "1", " ", `"opt"`, `"list"`}
 	hh.Sub(h, "random-requests", h.N(15000, 100000), func(rt *rapid.T) c15Case {
 		c := c15Case{Method: rapid.SampledFrom(c15Methods).Draw(rt, "m"), CType: rapid.SampledFrom(c15CTypes).Draw(rt, "ct"), Ptr: rapid.IntRange(0, 3).Draw(rt, "ptr") == 0}
+		if rapid.IntRange(0, 3).Draw(rt, "pre") == 0 {
+			c.Pre = rapid.SampledFrom([]string{"parseform", "formvalue"}).Draw(rt, "prek")
+		}
 		if c.CType == "application/json" && rapid.IntRange(0, 1).Draw(rt, "param") == 0 {
 			c.CType += ";" + strings.Join(rapid.SliceOfN(rapid.SampledFrom([]string{" ", "charset", "=", "utf-8", ";", "\"", "q", "/", ":", "x", ",", "*"}), 0, 6).Draw(rt, "pf"), "")
 		}
